@@ -17,7 +17,9 @@ theorem between_bounds (x lo hi : Rat) (h : lo ≤ hi) : lo ≤ between x lo hi 
 theorem factor_bounds (threshold cpu : Int) :
     1 / 10 ≤ overloadFactor threshold cpu ∧ overloadFactor threshold cpu ≤ 1 := by
   unfold overloadFactor factorLowerBound
-  exact between_bounds _ _ _ (by grind)
+  split
+  · split <;> constructor <;> grind
+  · exact between_bounds _ _ _ (by grind)
 
 theorem maxFlight_ge_one (s : Shedder) (now : Nat) : 1 ≤ s.maxFlight now := by
   unfold Shedder.maxFlight
